@@ -51,7 +51,7 @@ type peer struct {
 	wmu       sync.Mutex
 	slowFrom  atomic.Int64 // slowAfterRetune: probes with this index or later are answered slowly (0 = none yet)
 	probes    atomic.Int64 // Linktest.req received
-	selectedT atomic.Int64 // unix nanos when Select.rsp had been written
+	selectedT atomic.Int64 // unix nanos just before Select.rsp was written
 	closedT   atomic.Int64 // unix nanos when the read side saw the link end
 	stop      chan struct{}
 	done      chan struct{}
@@ -105,8 +105,13 @@ func (p *peer) run() {
 		switch cm.Type() {
 		case hsms.SelectReqType:
 			rsp, _ := hsms.NewSelectRsp(cm, 0)
+			// reference instant for the LOWER bound on the time to the disconnect: taken BEFORE the
+			// Select.rsp is written (the library cannot be Selected, nor its linktest timer armed,
+			// earlier than this); stamping after the write returned made the measured time too short
+			// whenever this goroutine was descheduled in between (a false alarm under load)
+			t0 := time.Now().UnixNano()
 			if p.write(rsp.ToBytes()) == nil {
-				p.selectedT.Store(time.Now().UnixNano())
+				p.selectedT.Store(t0)
 				if p.kind == chatty {
 					extra.Add(1)
 					go func() {
